@@ -249,7 +249,9 @@ def oracle_parametric(inp):
     res = [('flags_agree', r['flag_distance'] == r['flag_normal'], 'distance and normal both False or both values', [r['flag_distance'], r['flag_normal']])]
     if cls in ('miss', 'degenerate'):
         res.append(('miss_flagged', r['flag_distance'], 'False, False', r['distance']))
-    if not r['flag_distance']:
+    nan_marked = (not r['flag_distance']) and len(r['distance']) >= 1 and all(isinstance(x, float) and math.isnan(x) for x in r['distance'])
+    # the property accepts NaN as an explicit mark ("NaN, False or a cleared hit flag"): a NaN distance is a flagged result, not a wrong number
+    if not r['flag_distance'] and not nan_marked:
         dist = r['distance']
         tol = 1e-8 if inp.get('target_error') is None else inp['target_error']
         A, B, C = quad_coeffs(inp) if cls != 'degenerate' else (0, 0, 0)
